@@ -12,6 +12,11 @@
   name, `tadd:<shape>:<edges>:<tracked>` adds to the index of the current target, `tset:<ii>:<bf>` configures its
   inner query.  A `call:<kind>:<name>:…` whose name is the current target object runs the model's `tcall` (the
   object's state matters); any other name is a stateless target, `call` of the model, as before.
+
+  Remove.  `rm:<k>` removes the k-th shape PRESENT in the index (k from 0; the harness names the shape by the
+  object it added).  Model and specification name shapes by identity (the id `Add` returned, never reused); the
+  harness prints every shape of an answer as its position in the list of present shapes and compares with a
+  fresh index over exactly the present shapes, so ids never travel.
 -/
 import Oracle.Proto
 import S2.History
@@ -55,6 +60,7 @@ def parseOp? (cur : Option String) (t : String) : Option Op :=
   | ["tadd", _, e, tr] => do let e ← e.toNat?; let tr ← parseB? tr; pure (.tadd ⟨e, tr⟩)
   | ["tset", ii, bf] => do let ii ← parseB? ii; let bf ← parseB? bf; pure (.tset ii bf)
   | ["add", _, e, tr] => do let e ← e.toNat?; let tr ← parseB? tr; pure (.add ⟨e, tr⟩)
+  | ["rm", k] => do let k ← k.toNat?; pure (.remove k)
   | ["build"] => some .build
   | ["reset"] => some .reset
   | ["query"] => some .query
